@@ -229,14 +229,21 @@ def show(body, noise=False, out=None):
             names.setdefault(pl_str(v["v"]), v["name"])
     print("fn %s  [%s:%s-%s] blocks=%d argc=%d" % (body.path, body.file, body.lines[0], body.lines[1], body.nblocks, body.argc), file=out)
     print("  vars: " + ", ".join("%s=%s" % (n, p) for p, n in names.items()), file=out)
+    noise_lines = set()
+    for b in g.blocks.values():
+        if b["term"].get("mac") in NOISE_MACROS:
+            noise_lines.add(b["term"].get("l"))
+    hidden = 0
     for i in sorted(g.blocks):
         b = g.blocks[i]
         if b["cleanup"]:
             continue
         t = b["term"]
-        if not noise and t.get("mac") in NOISE_MACROS:
-            print("  bb%d: [log %s] → %s" % (i, t.get("mac"), [s for s, _ in g.succ[i]]), file=out)
-            continue
+        if not noise:
+            ls = {s["l"] for s in b["stmts"]} | ({t.get("l")} if t.get("l") else set())
+            if t.get("mac") in NOISE_MACROS or (ls and ls <= noise_lines) or (not ls and not b["stmts"] and t["k"] == "goto"):
+                hidden += 1
+                continue
         print("  bb%d:" % i, file=out)
         for s in b["stmts"]:
             print("      %s = %s   // %s" % (pl_str(s["d"]), rv_str(s["rv"]), s["l"]), file=out)
